@@ -411,6 +411,16 @@ func (pe *provEnv) provD(e ast.Expr, depth int) string {
 			switch d := real[0].(type) {
 			case *ast.AssignStmt:
 				if len(d.Rhs) == 1 {
+					// multi-value from a helper of the package with one value-carrying return
+					if len(d.Lhs) > 1 {
+						for i, l := range d.Lhs {
+							if id, ok := l.(*ast.Ident); ok && (info.Defs[id] == obj || info.Uses[id] == obj) {
+								if r, ok := pe.helperResultProv(d.Rhs[0], i, depth); ok {
+									return r
+								}
+							}
+						}
+					}
 					// multi-value: x, err := f()
 					r := pe.provD(d.Rhs[0], depth+1)
 					for i, l := range d.Lhs {
@@ -865,8 +875,27 @@ func (m *coroModel) hoist(l *cmdLit, cf *coroFunc) []*cmdLit {
 	if sig.Recv() != nil || sig.Variadic() || sig.Results().Len() == 0 {
 		return []*cmdLit{l}
 	}
+	takesCoroutine := false
 	for i := 0; i < sig.Params().Len(); i++ {
 		if isCoroutineType(sig.Params().At(i).Type()) {
+			takesCoroutine = true
+		}
+	}
+	if takesCoroutine {
+		// a step of ONE coroutine that was moved into a function of its own: attributed to its single
+		// call site; helpers shared by several coroutines keep their own literals
+		sites := 0
+		for _, name := range m.Order {
+			if m.Funcs[name] == cf {
+				continue
+			}
+			for _, call := range callsInDeep(m.Funcs[name].Decl.Body) {
+				if calleeOf(m.Pk.TypesInfo, call) == types.Object(obj) {
+					sites++
+				}
+			}
+		}
+		if sites != 1 {
 			return []*cmdLit{l}
 		}
 	}
@@ -1005,6 +1034,79 @@ func (pe *provEnv) inlineHelper(call *ast.CallExpr, depth int) (string, bool) {
 	return body, true
 }
 
+// helperResultProv: result k of a call to a function of the package whose last statement is its
+// only value-carrying return (other returns are error exits): the provenance of that returned
+// expression in the helper, with the helper's parameters replaced by the caller's arguments.
+func (pe *provEnv) helperResultProv(e ast.Expr, k int, depth int) (string, bool) {
+	call, ok := ast.Unparen(e).(*ast.CallExpr)
+	if !ok || depth > 8 {
+		return "", false
+	}
+	fn, ok := calleeOf(pe.pk.TypesInfo, call).(*types.Func)
+	if !ok || fn.Pkg() != pe.pk.Types {
+		return "", false
+	}
+	sig := fn.Type().(*types.Signature)
+	if sig.Variadic() || sig.Params().Len() != len(call.Args) || k >= sig.Results().Len() || isErrorType(sig.Results().At(k).Type()) {
+		return "", false
+	}
+	if namedName(sig.Results().At(0).Type()) == "CoroutineFunc" {
+		return "", false
+	}
+	fd := funcDeclOf(pe.pk, fn)
+	if fd == nil || fd.Body == nil || fd == pe.fd || len(fd.Body.List) == 0 {
+		return "", false
+	}
+	last, ok := fd.Body.List[len(fd.Body.List)-1].(*ast.ReturnStmt)
+	if !ok || len(last.Results) != sig.Results().Len() {
+		return "", false
+	}
+	okShape := true
+	ast.Inspect(fd.Body, func(n ast.Node) bool {
+		if _, isLit := n.(*ast.FuncLit); isLit {
+			return false
+		}
+		rs, isRet := n.(*ast.ReturnStmt)
+		if !isRet || rs == last {
+			return true
+		}
+		errExit := false
+		if len(rs.Results) == sig.Results().Len() {
+			for j, r := range rs.Results {
+				if isErrorType(sig.Results().At(j).Type()) {
+					if id, isId := ast.Unparen(r).(*ast.Ident); !isId || id.Name != "nil" {
+						errExit = true
+					}
+				}
+			}
+		}
+		if !errExit {
+			okShape = false
+		}
+		return true
+	})
+	if !okShape {
+		return "", false
+	}
+	// only values the helper hands through (a variable, a field): a computed result keeps the call
+	switch ast.Unparen(last.Results[k]).(type) {
+	case *ast.Ident, *ast.SelectorExpr:
+	default:
+		return "", false
+	}
+	inner := newProvEnv(pe.pk, fd)
+	body := inner.provD(last.Results[k], depth+1)
+	for i := 0; i < sig.Params().Len(); i++ {
+		pn := sig.Params().At(i).Name()
+		if pn == "" || pn == "_" || !strings.Contains(body, "param:"+pn) {
+			continue
+		}
+		re := regexp.MustCompile(`param:` + regexp.QuoteMeta(pn) + `\b`)
+		body = re.ReplaceAllLiteralString(body, pe.provD(call.Args[i], depth+1))
+	}
+	return body, true
+}
+
 // projectLiteral: field f of a provenance that is itself a keyed literal `&T{a:x,b:y}`.
 func projectLiteral(base, f string) (string, bool) {
 	b := strings.TrimPrefix(base, "&")
@@ -1131,6 +1233,15 @@ func (pe *provEnv) earlyExitGuards(list []ast.Stmt, at ast.Node) []string {
 		}
 	}
 	for i := 0; i < idx; i++ {
+		// an assertion that was passed is a fact for what follows (a failed one does not return)
+		if es, ok := list[i].(*ast.ExprStmt); ok {
+			if call, ok := es.X.(*ast.CallExpr); ok && len(call.Args) >= 1 {
+				if fn, ok := calleeOf(pe.pk.TypesInfo, call).(*types.Func); ok && fn.Pkg() != nil && fn.Pkg().Path() == pkgUtil && fn.Name() == "Assert" {
+					out = append(out, pe.condAtoms(call.Args[0], false)...)
+				}
+			}
+			continue
+		}
 		ifs, ok := list[i].(*ast.IfStmt)
 		if !ok || ifs.Else != nil || !terminates(ifs.Body.List) {
 			continue
